@@ -767,6 +767,8 @@ COQ_HEADER = ('From BV Require Import Model.Expr Model.Builders17.\n'
 
 
 def run_impl(ctx, cases, chunk=24):
+    if not ctx.quick:
+        chunk = max(chunk, 48)
     payloads = [{'cases': cases[i:i + chunk]} for i in range(0, len(cases), chunk)]
     extra = {'PYTHONPATH': REPO_ROOT + '/src'} if REPO_ROOT != '/repo' else None
     res = ctx.impl_parallel('c17_build.py', payloads, timeout=1200, extra_env=extra)
@@ -926,7 +928,7 @@ def stream_build_values(ctx):
                     '60-digit arithmetic; Box-Cox exponents within 2e-5 of the switching points +-1e-5; non-trivial = decided '
                     'by the interval evaluator; distinct by (tree, row)')
     rng = ctx.sub_rng('build17')
-    n = ctx.n(260, 5000)
+    n = ctx.n(260, 2400)
     gens = corpus_gens()
     for i in range(n):
         gens.append(gen_case(rng, KINDS[i % len(KINDS)]))
